@@ -107,6 +107,8 @@ Definition C11_model (c : c11_case) : list cobs * list tobs * list errid :=
   | CTab steps => ([], tab_model init steps, expected_errors (concat (map fst steps)))
   end.
 
-(* short forms for cases.v *)
+(* short forms for cases.v (elaborating the literals is what a run costs) *)
+Definition s1 (o : cop) (v : option (list err)) : cop * cobs := (o, Ok (v, v)).
+Definition s2 (o : cop) (v w : option (list err)) : cop * cobs := (o, Ok (v, w)).
 Definition e (n : N) : err := Some n.
 Notation CF := CallbackFails (only parsing).
